@@ -548,7 +548,9 @@ func (c *client) receive(r io.Reader) (err error) {
 			"cellblocks length %d is greater than the response size %d", cellsLen, size)}
 		return
 	}
-	if d, ok := rpc.(canDeserializeCellBlocks); cellsLen > 0 && ok {
+	// multi response has to be validated even if it came without cellblocks
+	_, isMulti := rpc.(*multi)
+	if d, ok := rpc.(canDeserializeCellBlocks); ok && (cellsLen > 0 || isMulti) {
 		b := b[size-cellsLen:]
 		if c.compressor != nil {
 			b, err = c.compressor.decompressCellblocks(b)
